@@ -52,6 +52,7 @@ PAIRS = [  # same expression text with different column types, same SQL / differ
     # one instance spells the parameter of a parameterised aggregate out, the other relies on its default
     ("SELECT g, percentile(x, 0.5) AS p FROM stream GROUP BY g, CountingWindow(4)", "num", "SELECT g, percentile(x) AS p FROM stream GROUP BY g, CountingWindow(4)", "num"),
     ("SELECT g, nth_value(x, 2) AS p FROM stream GROUP BY g, CountingWindow(4)", "num", "SELECT g, nth_value(x) AS p FROM stream GROUP BY g, CountingWindow(4)", "num"),
+
     # two MATCH_RECOGNIZE instances over the same bare column: one never matches by itself (x <= 2), the other one's conditions fail to
     # evaluate on its rows (no column y) while carrying large x
     ("SELECT * FROM stream MATCH_RECOGNIZE (ORDER BY id MEASURES COUNT(*) AS n, LAST(id) AS li PATTERN (A A) DEFINE A AS x > 2)", "lowx",
@@ -125,6 +126,7 @@ def run(tier):
             b = {"sql": sql, "rows": [prow(rng, i + 1, "num") for i in range(8)], "tables": tbl}
             pairs.append({"meta": {"fam": "pair"}, "a": a, "b": b, "pattern": pat, "share": True, "stop_a": rng.choice([1, 2, 3])})
     seqfam.run_scenarios(res, pairs, "TraceIso", spec_dir=PIPE, tag="pair", sub="pair")
+    seqfam.run_pinned(res, "TraceIso", spec_dir=PIPE, sub="pair")
     res.cov["exhaustive"] = False
     res.cov["distinct_nontrivial"] = len(scen) + len(pairs)
     res.cov["rule"] = ("(a) %d query kinds (projection, *, analytic in SELECT / with PARTITION / in WHERE, changed_cols, function-expression group keys on counting and tumbling windows, counting, tumbling, JOIN, JOIN + window, unnest, CASE, global window) "
